@@ -47,21 +47,24 @@ CONSTANTS Shapes,    \* subset of {"TSS", "TSD", "TSL", "TSB", "TSW"}
           Cap0,      \* initial slot capacity
           GrowBy,    \* slots added when the free list is empty
           WinN, WinMin,
+          DynN,      \* a dynamic list is written at indices 0..DynN-1
           FixF2,
           Emit
 
 VARIABLES shape, now, phase, nops, wrote, inval,
           slots, free, pend, added, removed, modified, published, deltaTime, lmt, ksLmt,   \* keyed storage
-          kids,                                                                             \* fixed children
+          kids,                                                                             \* fixed / dynamic list children
+          nxt, tail, mwin,                                                                  \* dynamic list: ring of modified children
           ring, head, count,                                                                \* tick window
           abs, absPre, absW, lastW,                                                         \* level A shadow
           script, obs                                                                       \* history
-impl == <<slots, free, pend, added, removed, modified, published, deltaTime, lmt, ksLmt, kids, ring, head, count>>
+impl == <<slots, free, pend, added, removed, modified, published, deltaTime, lmt, ksLmt, kids, nxt, tail, mwin, ring, head, count>>
 vars == <<shape, now, phase, nops, wrote, inval, impl, abs, absPre, absW, lastW, script, obs>>
 NoHist == <<shape, now, phase, nops, wrote, inval, impl, abs, absPre, absW, lastW>>
 
 Keyed == shape \in {"TSS", "TSD"}
 Fixed == shape \in {"TSL", "TSB"}
+Dyn   == shape = "DTSL"
 NKids == IF shape = "TSL" THEN 3 ELSE 2
 EmptyFn == [x \in {} |-> 0]
 Sorted(s) == SetToSortSeq(s, LAMBDA a, b : a < b)
@@ -187,6 +190,13 @@ OpSet ==
       [] Fixed         -> {[op |-> "set", p |-> <<i - 1>>, a |-> <<v>>] : i \in 1..NKids, v \in Vals}
                           \cup {[op |-> "inv", p |-> <<>>, a |-> <<>>]}       \* invalidate the whole bundle / list
       [] shape = "TSW" -> {[op |-> "push", p |-> <<>>, a |-> <<v>>] : v \in Vals}
+      [] Dyn           -> {[op |-> "set", p |-> <<i>>, a |-> <<v>>] : i \in 0..(DynN - 1), v \in Vals}
+
+(* DynamicTSLStorage (ts_data_dynamic_list_ops.cpp): the children that ticked in the current window form a circular list
+   threaded through next_modified; the header points at the TAIL, the tail points back at the first entry *)
+RECURSIVE Walk(_, _, _, _)
+Walk(nx, first, p, acc) == IF nx[p] = first \/ Len(acc) > Len(nx) THEN Append(acc, p) ELSE Walk(nx, first, nx[p], Append(acc, p))
+ModifiedRing == IF tail = 0 \/ mwin # lmt THEN <<>> ELSE Walk(nxt, nxt[tail], nxt[tail], <<>>)
 
 LiveKeys(st) == {st.slots[s].key : s \in {x \in DOMAIN st.slots : st.slots[x].st = "live"}}
 
@@ -196,7 +206,7 @@ Do(o) ==
                       [] o.op = "rem" -> TssRemove(K, o.a[1], now)
                       [] o.op = "clr" -> RemoveAll(Mark(Roll(K, now), now), LiveKeys(K), now, FALSE))
             /\ abs' = CASE o.op = "add" -> abs \cup {o.a[1]} [] o.op = "rem" -> abs \ {o.a[1]} [] o.op = "clr" -> {}
-            /\ UNCHANGED <<kids, ring, head, count, absW>>
+            /\ UNCHANGED <<kids, nxt, tail, mwin, ring, head, count, absW>>
       [] shape = "TSD" ->
             /\ SetK(CASE o.op = "set" -> TsdSet(o.p[1], o.a[1], now)
                       [] o.op = "del" -> TsdErase(K, o.a[1], now)
@@ -205,7 +215,7 @@ Do(o) ==
                         [] o.op = "del" -> [x \in DOMAIN abs \ {o.a[1]} |-> abs[x]]
                         [] o.op = "clr" -> EmptyFn
             /\ absW' = CASE o.op = "set" -> absW \cup {o.p[1]} [] o.op = "del" -> absW \ {o.a[1]} [] o.op = "clr" -> {}
-            /\ UNCHANGED <<kids, ring, head, count>>
+            /\ UNCHANGED <<kids, nxt, tail, mwin, ring, head, count>>
       [] Fixed /\ o.op = "inv" ->
             \* TSDataMutationView::invalidate: nothing to do without a current value; otherwise every child with a value is
             \* invalidated first (its stamp cleared), then the parent's own stamp is cleared
@@ -213,21 +223,39 @@ Do(o) ==
             /\ lmt' = 0
             /\ abs' = IF lmt = 0 THEN abs ELSE [i \in DOMAIN abs |-> [ok |-> FALSE, v |-> 0]]
             /\ absW' = IF lmt = 0 THEN absW ELSE {}
-            /\ UNCHANGED <<slots, free, pend, added, removed, modified, published, deltaTime, ksLmt, ring, head, count>>
+            /\ UNCHANGED <<slots, free, pend, added, removed, modified, published, deltaTime, ksLmt, nxt, tail, mwin, ring, head, count>>
       [] Fixed /\ o.op # "inv" ->
             LET i == o.p[1] + 1 IN
             /\ kids' = [kids EXCEPT ![i] = [v |-> o.a[1], lmt |-> Rec(@.lmt, now)]]
             /\ lmt' = IF Changed(kids[i].lmt, now) THEN Rec(lmt, now) ELSE lmt      \* the parent is notified once per cycle and child
             /\ abs' = [abs EXCEPT ![i] = [ok |-> TRUE, v |-> o.a[1]]]
             /\ absW' = absW \cup {i}
-            /\ UNCHANGED <<slots, free, pend, added, removed, modified, published, deltaTime, ksLmt, ring, head, count>>
+            /\ UNCHANGED <<slots, free, pend, added, removed, modified, published, deltaTime, ksLmt, nxt, tail, mwin, ring, head, count>>
       [] shape = "TSW" ->
             /\ IF count = WinN
                THEN /\ ring' = [ring EXCEPT ![head] = o.a[1]] /\ head' = (head % WinN) + 1 /\ count' = count
                ELSE /\ ring' = [ring EXCEPT ![((head + count - 1) % WinN) + 1] = o.a[1]] /\ head' = head /\ count' = count + 1
             /\ lmt' = Rec(lmt, now)
             /\ abs' = Append(abs, o.a[1])
-            /\ UNCHANGED <<slots, free, pend, added, removed, modified, published, deltaTime, ksLmt, kids, absW>>
+            /\ UNCHANGED <<slots, free, pend, added, removed, modified, published, deltaTime, ksLmt, kids, nxt, tail, mwin, absW>>
+      [] Dyn ->
+            LET i    == o.p[1] + 1
+                grow == IF Len(kids) >= i THEN kids ELSE kids \o [j \in 1..(i - Len(kids)) |-> [v |-> 0, lmt |-> 0]]      \* at(): ensure_size
+                nx0  == IF Len(nxt) >= i THEN nxt ELSE nxt \o [j \in 1..(i - Len(nxt)) |-> 0]
+                tick == Changed(grow[i].lmt, now)               \* the child notifies its parent on its first mutation of the cycle
+                fresh == mwin # now                              \* record_child_modified: a newer time starts a new ring
+                tl   == IF fresh THEN 0 ELSE tail
+            IN  /\ kids' = [grow EXCEPT ![i] = [v |-> o.a[1], lmt |-> Rec(@.lmt, now)]]
+                /\ IF tick
+                   THEN /\ mwin' = now /\ tail' = i
+                        /\ nxt' = IF tl = 0 THEN [nx0 EXCEPT ![i] = i]
+                                  ELSE [nx0 EXCEPT ![i] = nx0[tl], ![tl] = i]      \* entry.next = tail.next (the first); tail.next = entry
+                        /\ lmt' = Rec(lmt, now)
+                   ELSE /\ mwin' = mwin /\ tail' = tail /\ nxt' = nx0 /\ lmt' = lmt
+                /\ abs' = LET g == IF Len(abs) >= i THEN abs ELSE abs \o [j \in 1..(i - Len(abs)) |-> [ok |-> FALSE, v |-> 0]]
+                          IN  [g EXCEPT ![i] = [ok |-> TRUE, v |-> o.a[1]]]
+                /\ absW' = absW \cup {i}
+                /\ UNCHANGED <<slots, free, pend, added, removed, modified, published, deltaTime, ksLmt, ring, head, count>>
 
 (***************************************************************************)
 (* what a reader sees at the end of the current cycle                      *)
@@ -255,6 +283,10 @@ Obs ==
             [t |-> now, m |-> IF m THEN 1 ELSE 0, ok |-> IF lmt # 0 THEN 1 ELSE 0, lmt |-> lmt, iv |-> IF inval THEN 1 ELSE 0,
              mi |-> Sorted({i - 1 : i \in {j \in 1..NKids : kids[j].lmt = now}}),
              cv |-> [i \in 1..NKids |-> <<IF kids[i].lmt # 0 THEN kids[i].v ELSE 0, IF kids[i].lmt = now THEN 1 ELSE 0, IF kids[i].lmt # 0 THEN 1 ELSE 0>>]]
+      [] Dyn ->
+            [t |-> now, m |-> IF m THEN 1 ELSE 0, ok |-> IF lmt # 0 THEN 1 ELSE 0, lmt |-> lmt, sz |-> Len(kids),
+             mi |-> Sorted(IF m THEN {ModifiedRing[j] - 1 : j \in DOMAIN ModifiedRing} ELSE {}),      \* readers ask modified() first
+             cv |-> [i \in 1..Len(kids) |-> <<IF kids[i].lmt # 0 THEN kids[i].v ELSE 0, IF kids[i].lmt = now THEN 1 ELSE 0, IF kids[i].lmt # 0 THEN 1 ELSE 0>>]]
       [] shape = "TSW" ->
             [t |-> now, m |-> IF m THEN 1 ELSE 0, ok |-> IF lmt # 0 THEN 1 ELSE 0, lmt |-> lmt,
              v |-> [i \in 1..count |-> ring[((head + i - 2) % WinN) + 1]]]
@@ -267,9 +299,10 @@ Init ==
     /\ now = 1 /\ phase = "start" /\ nops = 0 /\ wrote = FALSE /\ inval = FALSE
     /\ slots = [i \in 1..Cap0 |-> FreeSlot] /\ free = [i \in 1..Cap0 |-> Cap0 + 1 - i] /\ pend = <<>>
     /\ added = {} /\ removed = {} /\ modified = {} /\ published = {} /\ deltaTime = 0 /\ lmt = 0 /\ ksLmt = 0
-    /\ kids = [i \in 1..3 |-> [v |-> 0, lmt |-> 0]]
+    /\ kids = IF shape = "DTSL" THEN <<>> ELSE [i \in 1..3 |-> [v |-> 0, lmt |-> 0]]
+    /\ nxt = <<>> /\ tail = 0 /\ mwin = 0
     /\ ring = [i \in 1..WinN |-> 0] /\ head = 1 /\ count = 0
-    /\ abs = CASE shape = "TSS" -> {} [] shape = "TSD" -> EmptyFn [] shape = "TSW" -> <<>>
+    /\ abs = CASE shape = "TSS" -> {} [] shape = "TSD" -> EmptyFn [] shape = "TSW" -> <<>> [] shape = "DTSL" -> <<>>
                [] OTHER -> [i \in 1..(IF shape = "TSL" THEN 3 ELSE 2) |-> [ok |-> FALSE, v |-> 0]]
     /\ absPre = abs /\ absW = {} /\ lastW = 0
     /\ script = <<>> /\ obs = <<>>
@@ -329,6 +362,9 @@ ValueMatches == AtObs =>
                           /\ \A i \in DOMAIN Obs.cv : Obs.cv[i][2] = abs[Obs.cv[i][1]]
       [] Fixed         -> \A i \in 1..NKids : (Obs.cv[i][3] = 1) = abs[i].ok /\ (abs[i].ok => Obs.cv[i][1] = abs[i].v)
       [] shape = "TSW" -> Obs.v = LastN(abs, WinN)
+      \* the list has grown to the largest index written; an element never written has no value
+      [] Dyn           -> /\ Obs.sz = Len(abs) /\ Len(Obs.cv) = Len(abs)
+                          /\ \A i \in 1..Len(abs) : (Obs.cv[i][3] = 1) = abs[i].ok /\ (abs[i].ok => Obs.cv[i][1] = abs[i].v)
 
 \* C05: added / removed disjoint, added present, removed absent and previously present, cancelled mutations leave no trace
 DeltaCoherent == (AtObs /\ Keyed) =>
@@ -353,6 +389,10 @@ ParentRule == AtObs =>
     CASE Fixed -> /\ (Obs.m = 1) = (\E i \in 1..NKids : Obs.cv[i][2] = 1)
                   /\ ToSet(Obs.mi) = {i - 1 : i \in absW}
       [] shape = "TSD" -> (\E i \in DOMAIN Obs.cv : Obs.cv[i][3] = 1) => Obs.m = 1
+      \* dynamic list: the modified children are exactly the ones written in the cycle, however many
+      [] Dyn -> /\ (Obs.m = 1) = (\E i \in DOMAIN Obs.cv : Obs.cv[i][2] = 1)
+                /\ {Obs.mi[j] : j \in DOMAIN Obs.mi} = {i - 1 : i \in absW}
+                /\ {i - 1 : i \in {j \in DOMAIN Obs.cv : Obs.cv[j][2] = 1}} = {i - 1 : i \in absW}
       [] OTHER -> TRUE
 
 \* C04: no delta is readable in a cycle without a write
@@ -360,6 +400,7 @@ NoStaleDelta == (AtObs /\ ~wrote) =>
     CASE shape = "TSS" -> Obs.a = <<>> /\ Obs.r = <<>>
       [] shape = "TSD" -> Obs.a = <<>> /\ Obs.r = <<>> /\ Obs.mk = <<>>
       [] Fixed -> Obs.mi = <<>>
+      [] Dyn -> Obs.mi = <<>>
       [] OTHER -> TRUE
 
 \* level B coherence: bitsets only name constructed slots, a slot is never both added and removed, pending slots are not live
